@@ -322,3 +322,13 @@ def emit_lsreq(ctx):
         h, ex, lt_ms, info = E.case_ls_request(mobile)
         emit_queries(ctx, f"LSREQ[{mobile.name}]", h, ex, lt_ms,
                      lambda R, vals, info=info: R._send_ls_request_packet(G.concretize(info["sought"], vals)), extra_objs=(info["sought"],))
+
+
+@vc("C02", "emit-btp-sdu")
+def emit_btp(ctx):
+    """the GN SDU a BTP request turns into: BTP-A/B header | payload, with the GN length = number of SDU octets (the PL field)"""
+    from . import c01
+    for t in (CommonNH.BTP_A, CommonNH.BTP_B):
+        for L in ((0, 5) if ctx.tier == "quick" else (0, 1, 5, 64, 1400)):
+            c01._btp_request(ctx, t, L)
+    ctx.bound("BTP-A/BTP-B, payload lengths {0,5} (quick) / {0,1,5,64,1400} (thorough), every 16-bit port / port info")
